@@ -3,7 +3,7 @@
 from __future__ import annotations
 
 
-def run(ctx, which=("predicates", "validate_reindex", "choose_method", "get_chunk")):
+def run(ctx, which=("predicates", "validate_reindex", "choose_method", "get_chunk"), pid="C19"):
     from ..contracts import plan
     from ..pyvc.run import add_to_ctx
 
@@ -18,6 +18,7 @@ def run(ctx, which=("predicates", "validate_reindex", "choose_method", "get_chun
         cs += plan.all_validate_reindex()
     n = 0
     for c in cs:
+        c.prefix = pid + c.prefix[3:]
         ex, obs = add_to_ctx(ctx, c, plan.PLAN_CALLEES)
         n += len(obs)
     ctx.assume("strings are z3 strings; `reindex` enumerated over {None, True, False, ReindexStrategy(blockwise in {None,True,False})} with array_type AUTO (sparse back end not installed)")
